@@ -265,6 +265,87 @@ def check_packed_edge(case):
     return dict(nontrivial=0 < e < 1, labels=["packed-edge"])
 
 
+# ---------------------------------------------------------------------- separated classes, one pair barely exchanged
+def _barely_cases(tier):
+    """Classes separated around 0 (scores k + 0.5 and -k - 0.5) except that the highest negative lies a hair
+    (1e-13 .. 1e-10, i.e. 1e3 .. 1e6 ulps) above the lowest positive: the classifier makes exactly one kind of
+    error, and the curves cross at a rate far below anything a fixed probe step resolves."""
+    for n, m in ((3, 3), (10, 7), (40, 40), (1, 5)) if tier == "quick" else ((3, 3), (10, 7), (40, 40), (1, 5), (200, 150), (2, 1)):
+        for ov in (1e-13, 1e-12, 1e-11, 1e-10):
+            for easy in (0, 5):
+                for sc, ec in CONFIGS:
+                    yield dict(n=n, m=m, ov=ov, easy=easy, sc=sc, ec=ec)
+
+
+def check_barely(case):
+    n, m, ov, easy, sc, ec = (case[k] for k in ("n", "m", "ov", "easy", "sc", "ec"))
+    pos = 0.5 + np.arange(n)
+    neg = -0.5 - np.arange(m)
+    neg[0] = 0.5 + ov  # the highest negative, a hair above the lowest positive
+    if sc == "neg":
+        pos, neg = -pos, -neg
+    from score_analysis import Scores
+
+    s = Scores(pos, neg, nb_easy_pos=easy, nb_easy_neg=easy, score_class=sc, equal_class=ec)
+    t, e = s.eer()
+    t, e = float(t), float(e)
+    P, Nn = n + easy, m + easy
+    fp_, fn_ = _count(pos, neg, t, sc, ec)
+    fpr, fnr = fp_ / Nn, fn_ / P
+    ctx = f"{n} positives / {m} negatives separated except for one pair exchanged by {ov}, easy={easy}, config={sc}/{ec}"
+    require(abs(fpr - e) <= 1.0 / Nn + 1e-9 and abs(fnr - e) <= 1.0 / P + 1e-9, "eer:fpr-crossing",
+            f"{ctx}: t={t!r} eer={e!r}; counting at t gives FPR={fpr!r} FNR={fnr!r}")
+    require(e <= 1.0 / min(P, Nn) + 1e-9, "eer:cap",
+            f"{ctx}: eer={e!r}, but a threshold between the classes makes at most one error per class")
+    return dict(nontrivial=True, labels=["barely-inverted"])
+
+
+def _count(pos, neg, t, sc, ec):
+    """(false positives, false negatives) at t by the decision rule, counted on the arrays."""
+    pos, neg = np.asarray(pos, dtype=float), np.asarray(neg, dtype=float)
+    if sc == "pos":
+        acc_p = pos >= t if ec == "pos" else pos > t
+        acc_n = neg >= t if ec == "pos" else neg > t
+    else:
+        acc_p = pos <= t if ec == "pos" else pos < t
+        acc_n = neg <= t if ec == "pos" else neg < t
+    return int(acc_n.sum()), int((~acc_p).sum())
+
+
+# ---------------------------------------------------------------------- subsamples made by the library
+@st.composite
+def _subsample_cases(draw):
+    n, m = draw(st.integers(4, 30)), draw(st.integers(4, 30))
+    ks = draw(st.lists(st.integers(-500, 500), min_size=n + m, max_size=n + m, unique=True))
+    return dict(kpos=ks[:n], kneg=ks[n:], ratio=draw(st.sampled_from([0.5, 0.75, 0.34])), seed=draw(gen.RNG_SEED),
+                a=draw(st.sampled_from([1.0, 0.25, 3.0])))
+
+
+def check_subsample(case):
+    """A proportion subsample (drawn without replacement, hence tie-free) of a tie-free object is a subject like
+    any other: its EER is a crossing point of the rates counted on the subsample's own scores."""
+    from score_analysis import BootstrapConfig, Scores
+
+    a = case["a"]
+    pos, neg = [a * k for k in case["kpos"]], [a * k + a / 2 for k in case["kneg"]]
+    nontrivial = False
+    for sc, ec in CONFIGS:
+        src = Scores(np.asarray(pos), np.asarray(neg), score_class=sc, equal_class=ec)
+        np.random.seed(case["seed"])
+        sub = src.bootstrap_sample(BootstrapConfig(sampling_method="proportion", ratio=case["ratio"]))
+        t, e = sub.eer()
+        t, e = float(t), float(e)
+        P, Nn = len(sub.pos), len(sub.neg)
+        fp_, fn_ = _count(sub.pos, sub.neg, t, sc, ec)
+        ctx = f"proportion subsample (ratio {case['ratio']}, seed {case['seed']}) of pos={pos} neg={neg}, config={sc}/{ec}"
+        require(abs(fp_ / Nn - e) <= 1.0 / Nn + 1e-6 and abs(fn_ / P - e) <= 1.0 / P + 1e-6, "eer:fpr-crossing",
+                lambda: f"{ctx}: subsample pos={sub.pos.tolist()} neg={sub.neg.tolist()} eer()=({t!r},{e!r}); counting at t "
+                        f"gives FPR={fp_}/{Nn} FNR={fn_}/{P}")
+        require(not (e == 0.0 and (fp_ or fn_)), "eer:zero-with-errors", ctx)
+        nontrivial = nontrivial or 0 < e < 1
+    return dict(nontrivial=nontrivial, labels=["subsample"])
+
+
 # ---------------------------------------------------------------------- a packed class under very many easy samples
 def _packed_easy_cases(tier):
     """A few hundred scores of one class 1e-12 apart, the other class far away on both sides, and 1e9-1e13
@@ -396,6 +477,10 @@ PROP = Prop(
                min_nontrivial=4, doc="2000-4000 scores 1e-12 apart inside a gap of 2e5-6e5 scores of the other class"),
         Clause("packed_edge", check_packed_edge, kind="enum", cases=_packed_edge_cases, quick_shards=8, shards=16,
                min_nontrivial=8, doc="curves cross 20-25 samples from the end of a run of 3000 scores 2^-40 apart"),
+        Clause("barely_inverted", check_barely, kind="enum", cases=_barely_cases, quick_shards=4, shards=8,
+               min_nontrivial=16, doc="separated classes with one pair exchanged by 1e-13..1e-10"),
+        Clause("subsample", check_subsample, strategy=_subsample_cases(), quick=60, thorough=1500, quick_shards=2,
+               min_nontrivial=20, doc="proportion subsamples made by the library as subjects"),
         Clause("packed_easy", check_packed_easy, kind="enum", cases=_packed_easy_cases, quick_shards=4, shards=8,
                min_nontrivial=4, doc="200 scores 1e-12 apart under 1e9-1e13 easy samples per class"),
         Clause("zero", check_zero, strategy=st.one_of(_any_scores(), _any_scores(), _any_scores(), _narrow_scores(), _narrow_scores(), _longdouble_scores()), quick=250, thorough=4800, quick_shards=2,
